@@ -120,6 +120,17 @@ CURRENT_CASE_SEED = ""      # set by the worker before each case (deterministic 
 CURRENT_TOP = None          # the Top being simulated (set by simulate())
 
 
+class PlatformStandIn:
+    """The little of amaranth.build.Platform a component might look at during elaborate(platform)."""
+    default_clk = "clk"
+    default_rst = "rst"
+    default_clk_frequency = 50_000.0      # 50 kHz: one millisecond is 50 cycles
+    device = "vmon-standin"
+
+    def default_clk_constraint(self):
+        return None
+
+
 def reset_plan(cycles, p=0.2):
     """Cycles in which the design's synchronous reset is asserted (a warm reset in the middle of traffic), chosen
     deterministically from the case's stimulus seed: empty for most cases, else 1-3 cycles. A bench that uses it
@@ -170,8 +181,16 @@ def simulate(top, bench, mon=None):
         except Stop:
             pass
 
+    design = top
+    if isinstance(top, Top) and zlib.crc32(("plat:" + CURRENT_CASE_SEED).encode()) % 6 == 0:
+        # what every FPGA build does: elaborate(platform) with a platform object that reports a (slow) default clock.
+        # The hardware a component yields must not depend on it
+        from amaranth.hdl import Fragment as _Fragment
+        design = _Fragment.get(top, PlatformStandIn())
+        if mon is not None:
+            mon.count("runs_elaborated_with_a_platform_object")
     try:
-        sim = Simulator(top)
+        sim = Simulator(design)
         sim.add_clock(1e-6)
         sim.add_testbench(wrapped)
         sim.run()
